@@ -1,4 +1,4 @@
-import Xo.Model.RefGraph
+import Xo.Model.RefGraphX
 import Xo.Drv.Util
 /-! line-protocol driver for the reference-graph proof model (component `rg`): the definitions the C08 history theorems are
 about are the ones executed here -/
@@ -49,8 +49,12 @@ def showState (u : Univ) (s : St) : String :=
 structure D where
   u : Univ
   s : St
+  x : St          -- a second buffer: destination (and source) of cross-buffer copies
 
-def init : D := { u := [], s := initSt 0 1 none }
+def init : D := { u := [], s := initSt 0 1 none, x := initSt 0 1 none }
+
+/-- recursion budget of a cross-buffer copy (the library's is Python's recursion limit; the harness only copies acyclic graphs) -/
+def xfuel : Nat := 400
 
 def run (d : D) (op : Op) : D × String :=
   let s' := step d.u d.s op
@@ -109,6 +113,30 @@ def step (d : D) (line : String) : D × String :=
   | ["grow", n] =>
     match n.toNat? with
     | some n => run d (.grow n)
+    | none => (d, "bad-op")
+  | ["xbuf", cap, al, gs] =>
+    match cap.toNat?, al.toNat? with
+    | some c, some a => let s := initSt c a gs.toNat?; ({ d with x := s }, s!"ok {showState d.u s}")
+    | _, _ => (d, "bad-op")
+  | ["xcopy", h] =>          -- the node at `h` of the first buffer is copy-constructed in the second
+    match h.toNat? with
+    | some h =>
+      match (findObj d.s h).bind (·.cls) with
+      | none => (d, "bad-op")
+      | some c =>
+        match xcopy d.u d.s xfuel d.x h c with
+        | some (x', o) => ({ d with x := x' }, s!"obj {o} {showState d.u x'}")
+        | none => (d, s!"obj - {showState d.u d.x}")
+    | none => (d, "bad-op")
+  | ["xback", h] =>          -- the node at `h` of the second buffer is copy-constructed in the first
+    match h.toNat? with
+    | some h =>
+      match (findObj d.x h).bind (·.cls) with
+      | none => (d, "bad-op")
+      | some c =>
+        match xcopy d.u d.x xfuel d.s h c with
+        | some (s', o) => ({ d with s := s' }, s!"obj {o} {showState d.u s'}")
+        | none => (d, s!"obj - {showState d.u d.s}")
     | none => (d, "bad-op")
   | ["dump"] => (d, s!"mem {hexOf d.s.b.mem}")
   | _ => (d, "bad-op")
